@@ -26,6 +26,9 @@ func VerifC01Window() {
 		verifAssert("upsert-ok", verifAnd(e1 == nil, e2 == nil))
 	}
 	verifAssume(sum > 0)
+	if part := verifParam("part"); part >= 0 {
+		verifAssume(w[0] == part) // work partition over the first weight
+	}
 	// g = gcd of the weights, specified declaratively (divides all; no larger divisor does)
 	g := verifInt("g")
 	verifAssume(verifAnd(g >= 1, g <= wmax))
